@@ -59,6 +59,9 @@ def parseOp (names : List String) : List String → Option (List String × Op)
     | some k, some l => some (names, .ins k l)
     | _, _ => none
   | ["del", k] => k.toNat?.map fun k => (names, .del k)
+  -- `delf`: Delete as nitro does it (same search and removal under one barrier token, then the node is handed to the
+  -- access barrier and freed by the harness when the barrier says so); the list operations are those of `del`
+  | ["delf", k] => k.toNat?.map fun k => (names, .del k)
   | ["look", k] => k.toNat?.map fun k => (names, .look k)
   | ["it_first", i] => let r := internName names i; some (r.1, .itFirst r.2)
   | ["it_seek", i, k] =>
@@ -86,7 +89,7 @@ def skipConcStep (s : SkipConcSt) (toks : List String) : SkipConcSt × String :=
     -- operations, and therefore the model, are the same
     match n.toNat? with
     | some n =>
-      if s.made || n < 1 || n > 64 || !(m == "mem=go" || m == "mem=mm") then (s, "bad-op")
+      if s.made || n < 1 || n > 64 || !(m == "mem=go" || m == "mem=mm" || m == "mem=mmfree") then (s, "bad-op")
       else ({ sys := { threads := List.replicate n {} }, made := true }, "ok")
     | none => (s, "bad-op")
   | "start" :: t :: rest =>
